@@ -223,11 +223,17 @@ def annotate_fn(sp, fn, spec, obligations, prefix):
             head = ""
             if l.get("pre"):
                 head += l["pre"].strip() + "\n"
-            head += "let ghost %s_s = %s;\n" % (b, seq)
-            head += "let mut %s = (%s).into_iter();\n" % (b, lp["expr"])
+            rem = l.get("rem")   # name of the uninterpreted `remaining` function of a trusted iterator model (hm_rem / hs_rem)
+            if rem:
+                head += "let mut %s = %s(%s);\n" % (b, l.get("into_iter", "vx_into_iter_hm"), lp["expr"])
+                head += "let ghost %s_s = %s(%s);\n" % (b, rem, b)
+            else:
+                head += "let ghost %s_s = %s;\n" % (b, seq)
+                head += "let mut %s = (%s).into_iter();\n" % (b, lp["expr"])
             head += "let ghost mut %s_k: int = 0;\n" % b
             label = (fn.src[lp["label"].start:lp["label"].end] + ": ") if lp["label"] is not None else ""
-            inv = "0 <= %s_k <= %s_s.len(), %s.remaining() == %s_s.subrange(%s_k, %s_s.len() as int)" % (b, b, b, b, b, b)
+            remaining = ("%s(%s)" % (rem, b)) if rem else ("%s.remaining()" % b)
+            inv = "0 <= %s_k <= %s_s.len(), %s == %s_s.subrange(%s_k, %s_s.len() as int)" % (b, b, remaining, b, b, b)
             if l.get("inv"):
                 inv += ",\n        " + sub(l["inv"].strip().rstrip(","))
             ens = "%s_k == %s_s.len()" % (b, b)
